@@ -74,9 +74,10 @@ theorem invH_reach {c : Conf} (h : Reach C O st0 script picks c) : InvH O st0 c 
 
 theorem invL_reach {c : Conf} (h : Reach C O st0 script picks c) : InvL C c := by
   refine reach_ind (P := InvL C) ?_ (fun c _ hc => invL_step C O c hc) c h
-  refine ⟨?_, ?_, ?_⟩
+  refine ⟨?_, ?_, ?_, ?_⟩
   · intro _ h; cases h
   · intro h; cases h
+  · intro _ _ h; cases h
   · intro _ _ _ h; cases h
 
 theorem invS_reach {c : Conf} (h : Reach C O st0 script picks c) : InvS script c := by
@@ -93,6 +94,12 @@ theorem invP_reach {c : Conf} (h : Reach C O st0 script picks c) : InvP C script
     · intro _ _ _ _ h; cases h
   · intro c hc hp
     exact invP_step C O script c (invS_reach hc).sub hp
+
+theorem invU_reach {c : Conf} (h : Reach C O st0 script picks c) : InvU O c := by
+  refine reach_ind (P := InvU O) ?_ (fun c _ hc => invU_step C O c hc) c h
+  refine ⟨?_, ?_⟩
+  · intro _ h; cases h
+  · intro _ h; cases h
 
 theorem invQ_reach {c : Conf} (h : Reach C O st0 script picks c) : InvQ c := by
   refine reach_ind (P := InvQ) ?_ (fun c _ hc => invQ_step C O c hc) c h
